@@ -1284,9 +1284,10 @@ def exec_circuit(ctx, prog, want_state=False):
         except Exception as e:
             ctx.fail("oracle", "c11:apply-raises", f"{tag}: apply_gate_/to_tensor raised {type(e).__name__}: {e} at gate {gi} {g['g']} on {path}", case=sub, concrete=True)
             return None
+        floor = 1e-4 * np.abs(ref).max() * np.abs(M).max()   # below: the operator (e.g. a difference of MPOs) annihilates the state up to round-off
         ref = apply_dense(alg, ref, M, [s2i[s] for s in acting])
         scale = np.abs(ref).max()
-        if not np.isfinite(scale) or scale < 1e-200:
+        if not np.isfinite(scale) or scale < 1e-200 or not scale > floor:
             ctx.count("apply:degenerate-norm")
             return None
         err = float(np.abs(w - ref).max() / scale) if w.shape == ref.shape else float("inf")
